@@ -73,7 +73,7 @@ func judgeC01(hst Hist) *h.Verdict {
 			return v
 		}
 		if res.Status >= 400 {
-			v.Failf("valid-request-rejected/"+op.K, "step %d: well-formed %s answered %d %.200s", step, op.K, res.Status, res.Body)
+			v.Failf(rejSig(res)+op.K, "step %d: well-formed %s answered %d %.200s", step, op.K, res.Status, res.Body)
 			return v
 		}
 		// classification from what was observed
@@ -200,4 +200,8 @@ func TestC01Long(t *testing.T) {
 		v.NonTrivial = true
 		return v
 	})
+}
+
+func TestC01Volume(t *testing.T) {
+	h.Run(t, "C01", "volume", func(t *rapid.T) Hist { return genVolumeHist(t, false) }, volumeOf(judgeC01, false))
 }
